@@ -233,6 +233,9 @@ def check_copyfid(facts):
         v = s["rv"]["variant"]
         for fname, op in zip(s["rv"]["fields"], s["rv"]["ops"]):
             if op["k"] not in ("copy", "move"):
+                n += 1
+                r.fail("%s %s.%s" % (fn, v, fname), "field `%s` of the duplicated Node::%s is a constant instead of the original node's value: "
+                       "the copy (an unrolled loop iteration) loses the flag/bound the original carries" % (fname, v), facts.loc(fn, s["line"]))
                 continue
             n += 1
             src = sources(op["pl"]["l"])
@@ -867,4 +870,480 @@ def check_casesrc(facts):
                 r.sample({"function": fn, "line": s["line"], "sources": sorted("/".join(x) for x in srcs)})
     r.floor("charset_constructions", n, 6)
     r.floor("constructions_from_expand_code_point", ntab, 1)
+    return r
+
+
+# ---- KEEPCLEAN ------------------------------------------------------------------------------
+
+def check_keepclean(facts):
+    r = RuleResult("KEEPCLEAN", "an optimizer pass (fn(&mut Node, &Walk) -> PassAction) that answers PassAction::Keep has not overwritten part of "
+                                "its node: no direct store through the node reference (or a `&mut` borrowed from it), and no mem::take/replace/"
+                                "swap on such a place, reaches a `Keep` return. (Mutating calls whose effect the pass then measures — `retain` "
+                                "followed by a length comparison, a `modified` flag — are not stores and are left to the pass.) A bookkeeping "
+                                "write hoisted above a bail-out leaves x{n,m} rewritten to x{0,m-n} with nothing unrolled")
+    passes = [n for n, fn in facts.fns.items() if fn.get("output") == "optimizer::PassAction" and facts.has_body(n) and "{closure" not in n]
+    nw = 0
+    for fn in sorted(passes):
+        b = facts.body(fn)
+        node_params = [l for l in range(1, b.argc + 1) if b.local_ty(l).replace(" ", "") in ("&mutir::Node",)]
+        if not node_params:
+            continue
+        derived = set(node_params)
+        changed = True
+        while changed:
+            changed = False
+            for l, ds in b.defs().items():
+                if l in derived:
+                    continue
+                for d in ds:
+                    if d[2] != "assign":
+                        continue
+                    rv = d[3]["rv"]
+                    src = None
+                    if rv["k"] == "ref" and rv.get("m") == "mut":
+                        src = rv["pl"]["l"]
+                    elif rv["k"] == "use" and rv["op"].get("k") in ("copy", "move") and b.local_ty(l).startswith("&mut"):
+                        src = rv["op"]["pl"]["l"]
+                    if src in derived:
+                        derived.add(l)
+                        changed = True
+        writes = []
+        for bi, i, s in b.iter_stmts():
+            if s["k"] == "assign" and "*" in s["pl"]["p"] and s["pl"]["l"] in derived:
+                writes.append((bi, s["line"], "store to %s" % core.place_str(s["pl"], b)))
+        for bb, t in b.iter_calls():
+            cal = t.get("callee") or ""
+            if cal in ("std::mem::take", "std::mem::replace", "std::mem::swap"):
+                for a in t["args"]:
+                    if a.get("k") in ("copy", "move") and a["pl"]["l"] in derived:
+                        writes.append((bb, t.get("line"), cal.split("::")[-1] + " on the node"))
+        keeps = [(bi, s["line"]) for bi, i, s in b.iter_stmts() if s["k"] == "assign" and s["pl"]["l"] == 0 and s["rv"]["k"] == "agg"
+                 and s["rv"].get("variant") == "Keep"]
+        nw += len(writes)
+        bad = []
+        for wb, line, what in writes:
+            reach = b.reach_from(wb)
+            for kb, kline in keeps:
+                if kb in reach and kb != wb:
+                    bad.append((line, what, kline))
+        key = "%s writes never reach Keep" % fn
+        if bad:
+            line, what, kline = sorted(bad)[0]
+            r.fail(key, "%s (line %s) can be followed by `return PassAction::Keep` (line %s): the pass reports the node as untouched after "
+                        "having rewritten part of it" % (what, line, kline), facts.loc(fn, line))
+        else:
+            r.ok(key, "%d stores, %d Keep returns" % (len(writes), len(keeps)))
+            r.sample({"function": fn, "stores": len(writes), "keep_returns": len(keeps)})
+    r.floor("optimizer_passes", len(passes), 6)
+    r.floor("node_stores", nw, 5)
+    return r
+
+
+# ---- LOOPBOUNDS -----------------------------------------------------------------------------
+
+def check_loopbounds(facts):
+    r = RuleResult("LOOPBOUNDS", "both interpreters decide `may iterate again` / `may leave the loop` by comparing the iteration counter with the "
+                                 "quantifier's bounds. Every comparison one of whose operands is a plain load of `min_iters` / `max_iters` (or the "
+                                 "min/max parameters of the single-char loop helpers) compares it with a plain load of the counter or a constant: "
+                                 "no `+ 1` / `- 1` on either side. An offset in one interpreter only (`iters + 1 >= min_iters`) lets it leave a "
+                                 "loop one iteration early, and nothing in the other interpreter changes")
+    BOUNDS = ("min_iters", "max_iters")
+
+    def describe(b, op, depth=0):
+        """('load', field) | ('param', name) | ('const', v) | ('arith', text) | ('other', text)"""
+        if op.get("k") == "const":
+            return ("const", op.get("int"))
+        pl = op["pl"]
+        flds = core.proj_fields(pl)
+        if flds:
+            return ("load", flds[-1])
+        l = pl["l"]
+        if 1 <= l <= b.argc:
+            return ("param", b.local_name(l))
+        ds = b.defs().get(l, [])
+        if len(ds) == 1 and ds[0][2] == "assign" and depth < 6:
+            rv = ds[0][3]["rv"]
+            if rv["k"] == "use":
+                return describe(b, rv["op"], depth + 1)
+            if rv["k"] in ("bin", "checked_bin"):
+                return ("arith", "%s(%s, %s)" % (rv["op"], describe(b, rv["a"], depth + 1)[1], describe(b, rv["b"], depth + 1)[1]))
+            if rv["k"] == "cast":
+                return describe(b, rv["op"], depth + 1)
+            return ("other", rv["k"])
+        return ("other", b.local_name(l) or "_%d" % l)
+    n = 0
+    for fn in sorted(facts.body_names()):
+        if not (fn.startswith("classicalbacktrack::") or fn.startswith("pikevm::")):
+            continue
+        b = facts.body(fn)
+        params = {b.local_name(l) for l in range(1, b.argc + 1)}
+        k = 0
+        for bi, i, s in b.iter_stmts():
+            if s["k"] != "assign" or s["rv"]["k"] != "bin" or s["rv"]["op"] not in ("Lt", "Le", "Gt", "Ge", "Eq", "Ne"):
+                continue
+            da, db = describe(b, s["rv"]["a"]), describe(b, s["rv"]["b"])
+
+            def is_bound(d):
+                return (d[0] == "load" and d[1] in BOUNDS) or (d[0] == "param" and d[1] in ("min", "max") and "scm" in fn)
+
+            def mentions_bound(d):
+                return d[0] == "arith" and any(x in str(d[1]) for x in BOUNDS)
+            if not (is_bound(da) or is_bound(db) or mentions_bound(da) or mentions_bound(db)):
+                continue
+            n += 1
+            k += 1
+            key = "%s bound test #%d" % (re.sub(r"::\{closure#\d+\}", "", fn), k)
+            bad = [d for d in (da, db) if d[0] in ("arith", "other")]
+            if bad:
+                r.fail(key, "the iteration-bound test at line %s compares %s with %s: an offset / computed operand in a bound test moves the "
+                            "loop's minimum or maximum by one in this interpreter only" % (s["line"], da[1], db[1]), facts.loc(fn, s["line"]))
+            else:
+                r.ok(key, "%s %s %s" % (da[1], s["rv"]["op"], db[1]))
+                r.sample({"function": fn, "line": s["line"], "lhs": str(da[1]), "op": s["rv"]["op"], "rhs": str(db[1])})
+    r.floor("bound_tests", n, 10)
+    return r
+
+
+# ---- CLOSEDIV -------------------------------------------------------------------------------
+
+def check_closediv(facts):
+    r = RuleResult("CLOSEDIV", "code point intervals are closed ([first, last], both included). Wherever the `first` of one interval is compared "
+                               "with the `last` of another (set algebra in codepointset.rs, case closure in unicode.rs, class parsing), the test "
+                               "is, in canonical form, `B.last < A.first` (A lies wholly after B; optionally `B.last + 1 < A.first` for "
+                               "non-adjacency) or its negation. The other orientation — `A.first < B.last` / `A.first >= B.last` — treats two "
+                               "intervals that share exactly one code point as disjoint: an intersection or difference loses that code point")
+
+    def side(b, op, depth=0):
+        """(base local, 'first'|'last', offset?) for a plain load of an interval bound, else None"""
+        if op.get("k") not in ("copy", "move"):
+            return None
+        fl = core.proj_fields(op["pl"])
+        if fl and fl[-1] in ("first", "last"):
+            return (b.root_of(op["pl"]["l"])[0], fl[-1], 0)
+        if fl:
+            return None
+        d = b.single_def(op["pl"]["l"])
+        if d and d[2] == "assign" and depth < 4:
+            rv = d[3]["rv"]
+            if rv["k"] == "use":
+                return side(b, rv["op"], depth + 1)
+            if rv["k"] in ("bin", "checked_bin") and rv["op"].startswith(("Add", "Sub")) and b.const_of_operand(rv["b"]) == 1:
+                x = side(b, rv["a"], depth + 1)
+                if x:
+                    return (x[0], x[1], 1 if rv["op"].startswith("Add") else -1)
+            if rv["k"] == "use" or rv["k"] == "cast":
+                return side(b, rv["op"], depth + 1)
+        return None
+    n = 0
+    for fn in sorted(facts.body_names()):
+        if not fn.split("::")[0].lstrip("<") in ("codepointset", "unicode", "parse") or "::tests::" in fn:
+            continue
+        b = facts.body(fn)
+        k = 0
+        for bi, i, s in b.iter_stmts():
+            if s["k"] != "assign" or s["rv"]["k"] != "bin" or s["rv"]["op"] not in ("Lt", "Le", "Gt", "Ge"):
+                continue
+            a, c = side(b, s["rv"]["a"]), side(b, s["rv"]["b"])
+            if not a or not c or a[1] == c[1] or a[0] == c[0]:
+                continue
+            n += 1
+            k += 1
+            op = s["rv"]["op"]
+            # canonical `<` orientation: which side is the smaller one
+            lo, hi = (a, c) if op in ("Lt", "Le") else (c, a)
+            strict = op in ("Lt", "Gt")
+            # canonical atom after folding <= / >= into the negation of the strict reverse
+            if not strict:
+                lo, hi = hi, lo
+            key = "%s first/last test #%d" % (re.sub(r"::\{closure#\d+\}", "", fn), k)
+            if lo[1] == "last" and hi[1] == "first":
+                r.ok(key, "`last%s < first` form" % ("+1" if lo[2] else ""))
+                r.sample({"function": fn, "line": s["line"], "op": op})
+            else:
+                r.fail(key, "the comparison at line %s relates one interval's `first` to another's `last` in the orientation `first < last` "
+                            "(written %s): with closed intervals this treats two intervals sharing one code point as not overlapping" % (
+                                s["line"], op), facts.loc(fn, s["line"]))
+    r.floor("first_last_tests", n, 4)
+    return r
+
+
+# ---- PROVIDED -------------------------------------------------------------------------------
+
+PROVIDED_TRAITS = ("matchers::CharProperties", "indexing::InputIndexer")
+PROVIDED_REVIEWED = {}   # (impl type, method) -> reason, for an override shown to agree with the default on that encoding
+
+
+def check_provided(facts):
+    r = RuleResult("PROVIDED", "the provided (default) methods of matchers::CharProperties and indexing::InputIndexer — word-character tests, line "
+                               "terminators, bracket membership, peek_left/right, fold_equals — are the one definition shared by every input "
+                               "encoding (UTF-8, ASCII, UTF-16, UCS-2): no impl overrides one, so the encodings cannot disagree there. An "
+                               "override in one impl (an 'ASCII fast path' for is_word_char_unicode_icase that forgets `_`) changes the result "
+                               "through that entry point only. Positive control: the provided methods are found")
+    import collections
+    prov = collections.defaultdict(set)
+    for n in facts.body_names():
+        for t in PROVIDED_TRAITS:
+            if n.startswith(t + "::") and "{closure" not in n and n.count("::") == t.count("::") + 1:
+                prov[t].add(n.split("::")[-1])
+    nprov = sum(len(v) for v in prov.values())
+    novr = 0
+    for n, fn in sorted(facts.fns.items()):
+        t = (fn.get("impl_trait") or "").split("<")[0]
+        if t in prov and fn.get("name") in prov[t]:
+            novr += 1
+            impl = n.split(" as ")[0].lstrip("<")
+            key = "%s overrides %s::%s" % (impl, t.split("::")[-1], fn["name"])
+            why = PROVIDED_REVIEWED.get((impl, fn["name"]))
+            if why:
+                r.ok(key, "reviewed: " + why)
+            else:
+                r.fail(key, "%s overrides the provided method %s::%s: this encoding now answers it differently from the others (only "
+                            "through this entry point), and the default that the other rules analyse is bypassed" % (impl, t, fn["name"]),
+                       facts.loc(n))
+    for t in PROVIDED_TRAITS:
+        r.ok("%s: %d provided methods, none overridden" % (t, len(prov[t])) if not novr else "%s provided methods counted" % t,
+             ", ".join(sorted(prov[t])))
+        r.sample({"trait": t, "provided": sorted(prov[t])})
+    r.floor("provided_methods", nprov, 8)
+    return r
+
+
+# ---- POSOUT ---------------------------------------------------------------------------------
+
+def check_posout(facts):
+    r = RuleResult("POSOUT", "InputIndexer::subrange_eq and match_bytes compare text at the cursor and, on a match, leave the cursor behind the "
+                             "compared text — in both directions and in every impl (UTF-8, ASCII, UTF-16, UCS-2). Decided per impl: every path "
+                             "from the entry to a return that is not the constant `false` passes a store through the `pos` out-parameter "
+                             "(cut-set reachability; both `Dir::FORWARD` arms are kept because Dir is generic). An arm that forgets `*pos = "
+                             "start` leaves the cursor unmoved after a backward back-reference in that encoding only")
+    n = 0
+    for fn in sorted(facts.body_names()):
+        if not (fn.startswith("<indexing::") and "InputIndexer>::" in fn and fn.split("::")[-1] in ("subrange_eq", "match_bytes")) or "{closure" in fn:
+            continue
+        b = facts.body(fn)
+        pos_l = [l for l in range(1, b.argc + 1) if b.local_ty(l).startswith("&mut") and "Position" in b.local_ty(l)]
+        if not pos_l:
+            continue
+        pl = pos_l[0]
+        stores = set()
+        for bi, i, s in b.iter_stmts():
+            if s["k"] == "assign" and s["pl"]["p"][:1] == ["*"] and b.root_of(s["pl"]["l"])[0] == pl:
+                stores.add(bi)
+        for bb, t in b.iter_calls():
+            # `*pos += n` on a position type is a call to AddAssign with &mut *pos
+            if (t.get("callee") or "").split("::")[-1] in ("add_assign", "sub_assign") and t["args"] and t["args"][0].get("k") in ("copy", "move") \
+                    and b.root_of(t["args"][0]["pl"]["l"])[0] == pl:
+                stores.add(bb)
+        rets = []
+        for bi, i, s in b.iter_stmts():
+            if s["k"] == "assign" and s["pl"]["l"] == 0 and not s["pl"]["p"]:
+                if s["rv"]["k"] == "use" and s["rv"]["op"].get("k") == "const" and s["rv"]["op"].get("int") == 0:
+                    continue
+                rets.append((bi, s["line"]))
+        for bb, t in b.iter_calls():
+            if t["dest"]["l"] == 0 and not t["dest"]["p"]:
+                rets.append((bb, t.get("line")))
+        if not rets:
+            continue
+        n += 1
+        key = "%s moves the cursor on a match" % fn
+        reach = b.reach_from(0, avoid=stores)
+        bad = [(bi, ln) for bi, ln in rets if bi in reach and bi not in stores]
+        if bad:
+            r.fail(key, "a path reaches the result at line %s without storing through `pos`: in one direction the cursor is not moved past "
+                        "the compared text (the next instruction re-reads it)" % bad[0][1], facts.loc(fn, bad[0][1]))
+        else:
+            r.ok(key, "%d store sites cut every path to a possibly-true return" % len(stores))
+            r.sample({"function": fn, "store_blocks": len(stores), "returns": len(rets)})
+    r.floor("comparing_methods", n, 3)
+    return r
+
+
+# ---- GROUPSCLEAN ----------------------------------------------------------------------------
+
+def check_groupsclean(facts):
+    r = RuleResult("GROUPSCLEAN", "the backtracking executor keeps its capture slots across the searches of one iterator, so every path on which "
+                                  "it hands out a Match resets every slot (`start = None; end = None` for each GroupData) before the next search: "
+                                  "each `Some(Match)` built by a match producer is dominated by a reset of the group store (in the producer or in "
+                                  "a function it calls, e.g. successful_match), or every caller of the producer resets before it returns. Checked "
+                                  "in every feature configuration — a reset moved into a `#[cfg(not(feature = \"utf16\"))]` block leaves a group "
+                                  "that took part in an earlier match set in a later one (find_iter, replace_all) in the utf16 build only")
+
+    prim = set()
+
+    def clearing_blocks(b):
+        """blocks that store a None into a `start`/`end` field of a GroupData reached through the group store"""
+        out = {}
+        for bi, i, s in b.iter_stmts():
+            if s["k"] != "assign" or "*" not in s["pl"]["p"]:
+                continue
+            fl = core.proj_fields(s["pl"])
+            if not fl or fl[-1] not in ("start", "end"):
+                continue
+            rv = s["rv"]
+            is_none = rv["k"] == "agg" and str(rv.get("variant")) == "None"
+            if not is_none and rv["k"] == "use" and rv["op"].get("k") in ("copy", "move") and not rv["op"]["pl"]["p"]:
+                d0 = b.single_def(rv["op"]["pl"]["l"])
+                is_none = bool(d0) and d0[2] == "assign" and d0[3]["rv"]["k"] == "agg" and str(d0[3]["rv"].get("variant")) == "None"
+            if is_none:
+                out.setdefault(bi, set()).add(fl[-1])
+        res = {bi for bi, fs in out.items() if fs >= {"start", "end"}}
+        for bb, t in b.iter_calls():
+            if (t.get("callee") or "") in prim:
+                res.add(bb)
+        return res
+    # a method that sets both fields of one GroupData to None (types::GroupData::reset) counts like the two stores
+    for fn in facts.body_names():
+        if fn.startswith("types::GroupData") and "{closure" not in fn:
+            if clearing_blocks(facts.body(fn)):
+                prim.add(fn)
+    clearing_fns = set()
+    for fn in facts.body_names():
+        if "classicalbacktrack::" in fn.split(" as ")[0] and "{closure" not in fn:
+            b = facts.body(fn)
+            cb = clearing_blocks(b)
+            if cb and any((t.get("callee") or "").endswith("iter_mut") for _, t in b.iter_calls()):
+                clearing_fns.add(fn)
+
+    def clear_points(b):
+        from .lbseq import natural_loops
+        pts = set(clearing_blocks(b))
+        # a reset written as a loop over the store is entered through its header on every path
+        for h, nodes in natural_loops(b).items():
+            if nodes & pts:
+                pts.add(h)
+        for bb, t in b.iter_calls():
+            if (t.get("callee") or "") in clearing_fns:
+                pts.add(bb)
+        return pts
+    n = 0
+    cg_callers = {}
+    for fn in facts.body_names():
+        if not fn.startswith("classicalbacktrack::") and "classicalbacktrack::BacktrackExecutor" not in fn:
+            continue
+        b = facts.body(fn)
+        for bb, t in b.iter_calls():
+            cg_callers.setdefault(t.get("callee") or "", []).append((fn, bb))
+    for fn in sorted(facts.body_names()):
+        if "BacktrackExecutor" not in fn or "{closure" in fn or fn in clearing_fns:
+            continue
+        b = facts.body(fn)
+        if "Option<api::Match>" not in b.local_ty(0).replace("core::", "std::").replace("std::option::", ""):
+            continue
+        somes = [(bi, s["line"]) for bi, i, s in b.iter_stmts() if s["k"] == "assign" and s["pl"]["l"] == 0 and s["rv"]["k"] == "agg"
+                 and str(s["rv"].get("variant")) == "Some"]
+        if not somes:
+            continue
+        pts = clear_points(b)
+        dom = b.dom()
+        for k, (bi, line) in enumerate(somes, 1):
+            n += 1
+            key = "%s Some(Match) #%d resets the groups" % (fn, k)
+            if any(p == bi or p in dom[bi] for p in pts):
+                r.ok(key, "dominated by a reset of the group store")
+                r.sample({"function": fn, "line": line})
+                continue
+            # one level up: every caller resets after the call on all paths to its return
+            callers = cg_callers.get(fn, [])
+            ok = bool(callers)
+            for cfn, cbb in callers:
+                cb_ = facts.body(cfn)
+                cpts = clear_points(cb_)
+                reach = cb_.reach_from(cbb, avoid=cpts - {cbb})
+                if any(x in reach for x in cb_.exits()):
+                    ok = False
+            if ok:
+                r.ok(key, "every caller resets the group store before returning")
+            else:
+                r.fail(key, "the Match built at line %s is handed out without the capture slots having been reset (no reset dominates it, and "
+                            "not every caller resets afterwards): the next match of the same iterator reports groups from this one" % line,
+                       facts.loc(fn, line))
+    r.floor("match_returns", n, 1)
+    if not clearing_fns:
+        r.error("no function resets the group store (start = None, end = None over groups.iter_mut())")
+    return r
+
+
+# ---- EXECSTATE ------------------------------------------------------------------------------
+
+def check_execstate(facts):
+    import json as _j
+    import os as _os
+    r = RuleResult("EXECSTATE", "a Matches iterator keeps one executor for all of its searches, so every field of the executor structs is state that "
+                                "could carry one search's history into the next. The fields of exec::Matches, BacktrackExecutor, "
+                                "classicalbacktrack::MatchAttempter / State, PikeVMExecutor and pikevm::MatchAttempter are exactly the reviewed "
+                                "ones (tables/exec_state.json gives, per field, the rule or argument that resets or restores it between searches). "
+                                "A new field — a step counter, a budget, a memo — is reported until it has such an argument: a budget that is "
+                                "zeroed only in `new` makes the N-th search of an iterator fail where a fresh search succeeds")
+    tab = _j.load(open(_os.path.join(core.VERIF, "tables", "exec_state.json")))
+    tab.pop("_comment", None)
+    n = 0
+    for adt, fields in sorted(tab.items()):
+        a = facts.adts.get(adt)
+        if not a:
+            r.error("executor struct %s not found" % adt)
+            continue
+        cur = [f["name"] for f in a["variants"][0]["fields"]]
+        for f_ in cur:
+            n += 1
+            key = "%s.%s" % (adt, f_)
+            if f_ in fields:
+                r.ok(key, fields[f_][:110])
+            else:
+                r.fail(key, "new per-iterator state: field `%s` of %s is not in the reviewed list; nothing says it is reset or restored between "
+                            "the searches of one iterator, so a later search may depend on earlier ones" % (f_, adt),
+                       "%s:%s" % (a.get("file"), a.get("line")))
+        r.sample({"struct": adt, "fields": cur})
+    r.floor("executor_fields", n, 12)
+    return r
+
+
+# ---- MONOID ---------------------------------------------------------------------------------
+
+def check_monoid(facts):
+    r = RuleResult("MONOID", "the emitter hands out loop slots from a counter (`next_loop_id`) and sizes the loop store from `result.loops`: every "
+                             "store to either is `<itself> + constant` (the initial 0 in the constructor aside), so no two loops of a program "
+                             "share a slot and the store has one entry per loop. Rewinding the counter (`self.next_loop_id = saved`) makes a "
+                             "loop inside a lookaround and a loop after it share a LoopData whose undo records live on different backtrack "
+                             "stacks: the empty-iteration check reads a stale count and the search does not terminate")
+    n = 0
+    for fn in sorted(facts.body_names()):
+        if not fn.startswith("emit::") and "emit::" not in fn.split(" as ")[0]:
+            continue
+        b = facts.body(fn)
+        for bi, i, s in b.iter_stmts():
+            if s["k"] != "assign" or "*" not in s["pl"]["p"]:
+                continue
+            fl = core.proj_fields(s["pl"])
+            if not fl or fl[-1] not in ("next_loop_id", "loops") or (fl[-1] == "loops" and "result" not in fl):
+                continue
+            n += 1
+            key = "%s store to %s #%d" % (re.sub(r"::\{closure#\d+\}", "", fn), ".".join(fl), n)
+            rv = s["rv"]
+            ok = False
+            src = rv
+            if rv["k"] == "use" and rv["op"].get("k") in ("copy", "move") and not rv["op"]["pl"]["p"]:
+                d0 = b.single_def(rv["op"]["pl"]["l"])
+                if d0 and d0[2] == "assign":
+                    src = d0[3]["rv"]
+                    # checked arithmetic: (tmp.0) of AddWithOverflow
+            if rv["k"] == "use" and rv["op"].get("k") in ("copy", "move") and rv["op"]["pl"]["p"]:
+                d0 = b.single_def(rv["op"]["pl"]["l"])
+                if d0 and d0[2] == "assign":
+                    src = d0[3]["rv"]
+            if src["k"] in ("bin", "checked_bin") and str(src.get("op", "")).startswith("Add"):
+                a, c = src["a"], src["b"]
+                same = a.get("k") in ("copy", "move") and core.proj_fields(a["pl"])[-1:] == fl[-1:] if a.get("k") in ("copy", "move") and a["pl"]["p"] else False
+                if not same and a.get("k") in ("copy", "move"):
+                    d1 = b.single_def(a["pl"]["l"])
+                    same = bool(d1) and d1[2] == "assign" and d1[3]["rv"]["k"] == "use" and d1[3]["rv"]["op"].get("k") in ("copy", "move") \
+                        and core.proj_fields(d1[3]["rv"]["op"]["pl"])[-1:] == fl[-1:]
+                ok = same and b.const_of_operand(c) is not None and b.const_of_operand(c) >= 1
+            if ok:
+                r.ok(key, "incremented")
+                r.sample({"function": fn, "line": s["line"], "field": ".".join(fl)})
+            else:
+                r.fail(key, "`%s` is assigned something other than itself plus a constant (line %s): loop slots can be handed out twice / the "
+                            "loop store no longer has one entry per loop" % (".".join(fl), s["line"]), facts.loc(fn, s["line"]))
+    r.floor("counter_stores", n, 2)
     return r
